@@ -81,9 +81,22 @@ def space_of(spec):
     if k == "multibinary":
         return spaces.MultiBinary(int(spec["n"]))
     if k == "box":
-        d = int(spec["d"])
-        return spaces.Box(float(spec.get("low", -1.0)), float(spec.get("high", 1.0)), (d,), np.float32)
+        lo, hi = bounds_of(spec)
+        return spaces.Box(lo.astype(np.float32), hi.astype(np.float32), dtype=np.float32)
     raise KeyError(k)
+
+
+def bounds_of(spec):
+    """(low, high) of a Box spec as float64 vectors (scalars are broadcast)"""
+    d = int(spec["d"])
+    lo = np.broadcast_to(np.asarray(spec.get("low", -1.0), dtype=np.float64), (d,)).copy()
+    hi = np.broadcast_to(np.asarray(spec.get("high", 1.0), dtype=np.float64), (d,)).copy()
+    return lo, hi
+
+
+def unit_bounds(spec) -> bool:
+    lo, hi = bounds_of(spec)
+    return bool(np.all(lo == -1.0) and np.all(hi == 1.0))
 
 
 def nvec_of(spec) -> list[int]:
@@ -138,19 +151,34 @@ def rows_of(case):
 
 
 # ----------------------------------------------------------------------------- reading the real objects
-def dist_params(actor):
-    """parameters of the distribution object the last forward pass built (None if the layout changed)"""
+def dist_params(actor, spec=None):
+    """parameters of the distribution object the last forward pass built — only when the object has the
+    documented layout (list of Categoricals with (B, nvec[k]) logits / Categorical (B, n) / Bernoulli (B, n) /
+    Normal (B, d)); anything else -> None and the case is judged on its observable outputs alone"""
     try:
         d = actor.head_net.dist.distribution
+        nvec = None if spec is None or spec["kind"] == "box" else nvec_of(spec)
         if isinstance(d, list):
-            return {"cat": [x.logits.detach().double().numpy() for x in d]}
+            out = [x.logits.detach().double().numpy() for x in d]
+            if nvec is not None and (len(out) != len(nvec) or any(o.ndim != 2 or o.shape[1] != nk for o, nk in zip(out, nvec))):
+                return None
+            return {"cat": out}
         name = type(d).__name__
         if name == "Categorical":
-            return {"cat": [d.logits.detach().double().numpy()]}
+            lg = d.logits.detach().double().numpy()
+            if lg.ndim != 2 or (nvec is not None and (len(nvec) != 1 or lg.shape[1] != nvec[0])):
+                return None
+            return {"cat": [lg]}
         if name == "Bernoulli":
-            return {"bern": d.logits.detach().double().numpy()}
+            lg = d.logits.detach().double().numpy()
+            if lg.ndim != 2 or (nvec is not None and lg.shape[1] != sum(nvec)):
+                return None
+            return {"bern": lg}
         if name == "Normal":
-            return {"loc": d.loc.detach().float().numpy(), "scale": d.scale.detach().float().numpy()}
+            loc, sc = d.loc.detach().float().numpy(), d.scale.detach().float().numpy()
+            if loc.ndim != 2 or sc.shape != loc.shape or (spec is not None and loc.shape[1] != flat_dim(spec)):
+                return None
+            return {"loc": loc, "scale": sc}
     except Exception:
         return None
     return None
@@ -495,10 +523,15 @@ def run_actor(case):
         raw = raw_logits(actor, obs)
         torch.manual_seed(case["seed"] + 1)
         head_a, lp, ent = actor.head_net(actor.extract_features(obs), mask)      # what PPO calls (forward_head)
-        params, u = dist_params(actor), cached_draw(actor)
+        params, u = dist_params(actor, spec), cached_draw(actor)
         lp_now = actor.action_log_prob(head_a)
         torch.manual_seed(case["seed"] + 1)
         full_a, lp_full, _ = actor(obs, action_mask=mask)                          # StochasticActor.forward
+        lp_unscaled = None
+        if squash:
+            lo_t, hi_t = (torch.tensor(v, dtype=torch.float32) for v in bounds_of(spec))
+            unscaled = ((full_a - lo_t) / (0.5 * (hi_t - lo_t)) - 1.0).clamp(-1.0, 1.0)
+            lp_unscaled = actor.action_log_prob(unscaled)                          # same distribution object, same weights
         stored = head_a.clone()
         torch.manual_seed(case["seed"] + 2)
         actor(other)                                                               # a further forward pass
@@ -507,7 +540,7 @@ def run_actor(case):
         u2 = cached_draw(actor)
         lp_re = actor.action_log_prob(stored)
         lp_re_full = None
-        if spec["kind"] == "box" and squash and float(spec.get("low", -1)) == -1.0 and float(spec.get("high", 1)) == 1.0:
+        if spec["kind"] == "box" and squash and unit_bounds(spec):
             lp_re_full = actor.action_log_prob(full_a.clone())
         # masked outcomes: log-prob of an action that picks a masked entry in every component that has one
         lp_bad = None
@@ -532,16 +565,22 @@ def run_actor(case):
         problems.append(f"log_prob has shape {tuple(lp.shape)} for a batch of {B}")
         return rows, problems
     if squash:
-        lo, hi = float(spec.get("low", -1)), float(spec.get("high", 1))
+        lo, hi = bounds_of(spec)
         want = lo + 0.5 * (head_a.double().numpy() + 1.0) * (hi - lo)
         if not np.allclose(full_a.double().numpy(), want, atol=1e-5):
             problems.append("StochasticActor.forward does not return scale_action(tanh(u)) of the head's action")
-        if not (np.all(full_a.numpy() >= lo - 1e-6) and np.all(full_a.numpy() <= hi + 1e-6)):
-            problems.append(f"scaled action outside the bounds [{lo},{hi}]: {full_a.numpy().tolist()}")
+        if not (np.all(full_a.numpy() >= lo - 1e-5) and np.all(full_a.numpy() <= hi + 1e-5)):
+            problems.append(f"scaled action outside the bounds [{lo.tolist()},{hi.tolist()}]: {full_a.numpy().tolist()}")
     elif not np.array_equal(full_a.numpy(), head_a.numpy()):
         problems.append("StochasticActor.forward and forward_head returned different actions for the same seed")
-    if not np.allclose(lp_full.numpy(), lp.numpy(), atol=1e-6):
-        problems.append("StochasticActor.forward and forward_head report different log-probs for the same draw")
+    if tuple(lp_full.shape) != (B,):
+        problems.append(f"StochasticActor.forward: log_prob has shape {tuple(lp_full.shape)} for a batch of {B}")
+        return rows, problems
+    fwd_vs_head = None
+    if not np.allclose(lp_full.numpy(), lp.numpy(), atol=1e-5, rtol=1e-5):
+        b0 = int(np.argmax(np.abs(lp_full.numpy() - lp.numpy())))
+        fwd_vs_head = (f"row {b0}: StochasticActor.forward reports log_prob {float(lp_full[b0])!r} but forward_head (what PPO uses) reports "
+                       f"{float(lp[b0])!r} for the same draw and the same weights")
     for b in range(B):
         row = {"raw": raw[b].tolist(), "mask": None if mask is None else mask[b].astype(int).tolist(),
                "action": np.asarray(head_a[b]).reshape(-1).tolist(), "lp": float(lp[b]),
@@ -554,6 +593,10 @@ def run_actor(case):
                 problems.append(f"row {b}: Normal(loc, scale) of the real distribution is not (network output, exp(log_std))")
         else:
             row["dist"] = None if params is None else {k: ([x[b] for x in v] if k == "cat" else v[b]) for k, v in params.items()}
+        row["lp_full"] = float(lp_full[b])
+        row["full_action"] = np.asarray(full_a[b]).reshape(-1).tolist()
+        if lp_unscaled is not None:
+            row["lp_unscaled"] = float(lp_unscaled[b])
         if not close(float(lp_now[b]), row["lp"], 1e-6):
             problems.append(f"row {b}: action_log_prob(action just returned) = {float(lp_now[b])!r} but forward reported {row['lp']!r}")
         if lp_re_full is not None and abs(float(np.max(np.abs(np.asarray(row["action"]))))) < 0.999:
@@ -563,6 +606,8 @@ def run_actor(case):
         if lp_bad is not None and lp_bad[1][b] and not float(lp_bad[0][b]) < math.log(1e-30):
             problems.append(f"row {b}: a masked action has probability exp({float(lp_bad[0][b])!r}) >= 1e-30")
         rows.append(row)
+    if fwd_vs_head and rows:
+        rows[0]["late2"] = fwd_vs_head
     return rows, problems
 
 
@@ -626,7 +671,7 @@ def run_ppo(case):
     raw = raw_logits(ag.actor, obs_t)
     torch.manual_seed(case["seed"] + 1)
     act, lp, ent, _v = ag.get_action(obs, action_mask=mask)
-    params, u = dist_params(ag.actor), cached_draw(ag.actor)
+    params, u = dist_params(ag.actor, spec), cached_draw(ag.actor)
     act = np.asarray(act)
     lp, ent = np.asarray(lp, dtype=np.float64), np.asarray(ent, dtype=np.float64)
     if lp.shape != (B,):
@@ -760,10 +805,10 @@ def run_learn(case):
     for name, actor, spec, squash in actors:
         orig = actor.action_log_prob
 
-        def spy(action, orig=orig, actor=actor, name=name):
+        def spy(action, orig=orig, actor=actor, name=name, spec=spec):
             out = orig(action)
             records[name].append({"action": action.detach().clone(), "out": out.detach().clone(),
-                                  "params": dist_params(actor), "u2": cached_draw(actor),
+                                  "params": dist_params(actor, spec), "u2": cached_draw(actor),
                                   "log_std": log_std_of(actor)})
             return out
         originals.append((actor, orig))
@@ -830,9 +875,19 @@ def eval_case(chk: Check, case, n_draws: int = 0):
             spec = case["spec"]
             for b, row in enumerate(rows):
                 row_lines(L, spec, row, f"row {b}: ")
-                oracle_row(spec, row, problems, f"row {b}: ")
+                lp_t = oracle_row(spec, row, problems, f"row {b}: ")
+                if lp_t is not None and "lp_full" in row:
+                    extra = eps_allow(row.get("squash"), row["action"])
+                    if not close(row["lp_full"], lp_t, 1e-4, extra):
+                        problems.append(f"row {b}: StochasticActor.forward returned action {row['full_action']} with log_prob {row['lp_full']!r}; "
+                                        f"the (tanh-corrected) log-density of that action's pre-image under the network's distribution is {lp_t!r}")
+                    if "lp_unscaled" in row and not close(row["lp_unscaled"], row["lp_full"], 1e-4, extra + cond_extra(row) * 4 + 1e-4):
+                        problems.append(f"row {b}: forward reported log_prob {row['lp_full']!r} with its action, but action_log_prob of the same "
+                                        f"(unscaled) action under the same weights is {row['lp_unscaled']!r}")
                 if row.get("late"):
                     problems.append(row["late"])
+                if row.get("late2"):
+                    problems.append(row["late2"])
             if n_draws:
                 problems += run_draws(case, n_draws)
             groups = [(spec, rows)]
@@ -867,7 +922,7 @@ def eval_case(chk: Check, case, n_draws: int = 0):
     except InfraError:
         raise
     except Exception as e:  # the implementation raised on a legal configuration
-        return [], [f"implementation raised {type(e).__name__}: {e}"], tags, 0
+        return [], [f"implementation raised, or returned objects of an unexpected shape, on a legal configuration: {type(e).__name__}: {e}"], tags, 0
     for spec, rows in groups:
         k = spec["kind"]
         tags.append(f"kind-{k}")
@@ -885,7 +940,10 @@ def eval_case(chk: Check, case, n_draws: int = 0):
         for ln, ck, out in zip(L.lines, L.checks, outs):
             if out == "bad-op":
                 raise InfraError(f"driver answered bad-op for {ln[:120]!r}")
-            msg = ck(out) if ck is not None else None
+            try:
+                msg = ck(out) if ck is not None else None
+            except Exception as e:     # data read from the implementation does not have the documented layout
+                msg = f"implementation output could not be compared with the model's answer ({type(e).__name__}: {e})"
             if msg:
                 diffs.append({"line": ln[:400], "model": out[:200], "what": msg})
     return diffs, problems, tags, len(L.lines)
@@ -914,7 +972,7 @@ def random_spec(rng, kinds=("discrete", "multidiscrete", "multibinary", "box")):
     if k == "discrete":
         return {"kind": k, "n": rng.choice([2, 3, 4, 5, 7])}
     if k == "multidiscrete":
-        return {"kind": k, "nvec": rng.choice([[2, 3], [3, 2, 2], [4], [1, 3], [2, 2, 2, 2], [5, 1, 2], [3, 4]])}
+        return {"kind": k, "nvec": rng.choice([[2, 3], [3, 2, 2], [4], [1, 3], [2, 2, 2, 2], [5, 1, 2], [3, 4], [3, 3], [2, 2, 2], [4, 4], [3, 3]])}
     if k == "multibinary":
         return {"kind": k, "n": rng.choice([1, 2, 3, 5])}
     return {"kind": k, "d": rng.choice([1, 2, 3, 5])}
@@ -934,6 +992,14 @@ def common_fields(rng, spec):
         f["squash"] = rng.random() < 0.55
         if f["squash"]:
             f["scale"] = rng.choice([1.0, 2.0, 4.0])
+            r = rng.random()
+            d = int(spec["d"])
+            if r < 0.2:
+                spec["low"], spec["high"] = -2.0, 2.0
+            elif r < 0.35:
+                spec["low"], spec["high"] = 0.0, 10.0
+            elif r < 0.55:
+                spec["low"], spec["high"] = [-2.0, 0.0, -1.0, -0.5, -3.0][:d], [2.0, 3.0, 1.0, 0.25, 5.0][:d]
     return f
 
 
@@ -948,6 +1014,13 @@ def exhaustive_mask_cases(rng):
     ms = [a + b for a in all_masks(2) for b in all_masks(3)]
     cases.append({"suite": "actor", "spec": spec, "rows": [[i % POOL, m] for i, m in enumerate(ms)],
                   "seed": rng.randrange(1 << 30), "scale": 4.0})
+    for nv in ([2, 2], [3, 3]):
+        spec = {"kind": "multidiscrete", "nvec": nv}
+        ms = [a + b for a in all_masks(nv[0]) for b in all_masks(nv[1])]
+        if len(ms) > 21:
+            ms = rng.sample(ms, 21)
+        cases.append({"suite": "actor", "spec": spec, "rows": [[i % POOL, m] for i, m in enumerate(ms)],
+                      "seed": rng.randrange(1 << 30), "scale": 4.0})
     spec = {"kind": "multibinary", "n": 3}
     ms = [[(m >> i) & 1 for i in range(3)] for m in range(8)]
     cases.append({"suite": "actor", "spec": spec, "rows": [[i, m] for i, m in enumerate(ms)],
@@ -1032,8 +1105,8 @@ def judge(chk: Check, case, n_draws, diffs, problems):
 def run(chk: Check) -> None:
     n_draws = 128 if chk.tier == "quick" else 512
     chk.rule = ("real StochasticActor / PPO / IPPO with the smallest legal networks (head weights scaled by 1, 4, 16 to spread "
-                "the logits), Discrete(2..7), MultiDiscrete (7 nvecs incl. size-1 components), MultiBinary(1..5), Box(1..5) with "
-                "and without squashing, action_std_init 0/0.5/1 and log-std overrides -1..0.25 (a different std per dimension), "
+                "the logits), Discrete(2..7), MultiDiscrete (10 nvecs incl. size-1 and equal-size components), MultiBinary(1..5), Box(1..5) with "
+                "and without squashing (unit, [-2,2], [0,10] and per-dimension bounds when squashing), action_std_init 0/0.5/1 and log-std overrides -1..0.25 (a different std per dimension), "
                 "every non-empty mask pattern for Discrete(2,3,4), MultiDiscrete([2,3]) and MultiBinary(3) plus random masks, "
                 "batches of 2-21 seeded observations; distinct = distinct case descriptor; non-trivial = at least one row is "
                 "masked, squashed, multi-component or a stored re-evaluation")
@@ -1103,19 +1176,24 @@ def probe_ppo_mask(case):
 
 
 def probe_scaled_action(case):
-    """StochasticActor.action_log_prob on the action StochasticActor.forward returned (non-unit Box bounds, squashing)"""
+    """exactly the known defect: action_log_prob(SCALED action that StochasticActor.forward returned) is NaN / not the value
+    that action_log_prob gives for the same action before scaling (same distribution object, same weights).  What forward
+    itself reports is judged by the actor-direct suite, not here."""
     idx, _ = rows_of(case)
     obs = torch.as_tensor(obs_pool(case["seed"])[idx])
     actor = build_actor(case)
+    lo, hi = (torch.tensor(v, dtype=torch.float32) for v in bounds_of(case["spec"]))
     with torch.no_grad():
         torch.manual_seed(case["seed"] + 1)
-        a, lp, _ = actor(obs)
+        a, _lp, _ = actor(obs)
+        unscaled = ((a - lo) / (0.5 * (hi - lo)) - 1.0).clamp(-1.0, 1.0)
+        ok = actor.action_log_prob(unscaled)
         re = actor.action_log_prob(a.clone())
-    bad = [b for b in range(len(idx)) if not close(float(re[b]), float(lp[b]), 1e-3)]
+    bad = [b for b in range(len(idx)) if not close(float(re[b]), float(ok[b]), 1e-3)]
     if bad:
         b = bad[0]
-        return (f"actor(obs) returned action {a[b].tolist()} (bounds [{case['spec']['low']},{case['spec']['high']}]) with log_prob {float(lp[b])!r}; "
-                f"action_log_prob(that action) = {float(re[b])!r}")
+        return (f"actor(obs) returned the scaled action {a[b].tolist()} (bounds [{lo.tolist()},{hi.tolist()}]); action_log_prob(that action) = "
+                f"{float(re[b])!r}, action_log_prob(the same action before scaling) = {float(ok[b])!r}")
     return None
 
 
